@@ -831,8 +831,9 @@ def pct_format(f, args):
     return fmt(parts)
 
 
-def str_format(f, args, kwargs):
-    """'...{:08X}...'.format(*args, **kwargs) -> fmt parts."""
+def str_format(f, args, kwargs, resolve=None):
+    """'...{:08X}...'.format(*args, **kwargs) -> fmt parts.  resolve(value, [(is_attr, key), ...]) follows the
+    '.attr' / '[key]' part of a replacement field ('{0.month}')."""
     if not is_const(f, str):
         return Op("m:format", f, *args)
     parts = []
@@ -854,6 +855,21 @@ def str_format(f, args, kwargs):
             val = args[int(field)] if int(field) < len(args) else None
         elif field in kwargs:
             val = kwargs[field]
+        elif resolve is not None and ("." in field or "[" in field):
+            import _string
+            try:
+                first, rest = _string.formatter_field_name_split(field)
+                rest = list(rest)
+            except Exception:
+                return Op("m:format", f, *args)
+            if first == "":
+                base = args[auto] if auto < len(args) else None
+                auto += 1
+            elif isinstance(first, int):
+                base = args[first] if first < len(args) else None
+            else:
+                base = kwargs.get(first)
+            val = resolve(base, rest) if base is not None else None
         else:
             val = None
         if val is None:
@@ -1076,6 +1092,20 @@ def evaluate(t, env, memo=None):
             if not isinstance(vals[0], cls_):
                 raise CannotEval(repr(t)[:120])
             r = getattr(cls_, op.split(".", 1)[1])(*vals)
+        elif op in ("call:re.findall", "call:re.sub", "call:re.subn", "call:re.split") and len(t.args) >= 2:
+            # module-level re functions with evaluated arguments: the standard library's engine on the sample text
+            import re as _re
+            vals = []
+            kw = {}
+            for a in t.args:
+                if isinstance(a, Op) and a.op in ("kv", "kw"):
+                    for kvp in (a.args if a.op == "kw" else (a,)):
+                        kw[evaluate(kvp.args[0], env, memo)] = evaluate(kvp.args[1], env, memo)
+                else:
+                    vals.append(evaluate(a, env, memo))
+            if not isinstance(vals[0], (str, bytes)):
+                raise CannotEval(repr(t)[:120])
+            r = getattr(_re, op.split(".")[-1])(*vals, **kw)
         elif op == "pct" and len(t.args) == 2:
             # a %-format whose format string is itself computed: python's own % on the sample values (a stray '%' in the
             # format raises ValueError / TypeError there - callers decide what that means)
